@@ -3,8 +3,7 @@
    pspan D f = "f is a polynomial of degree <= D" (linear span of T_0..T_D, contains every sum_{d<=D} a_d x^d). *)
 From Coq Require Import Reals Arith.
 From Coquelicot Require Import Coquelicot.
-From P Require Import C01_gen C01_model C01_proofs_trig C01_proofs_poly C01_proofs_fejer1 C01_proofs_fejer2 C01_proofs_cc
-  C01_proofs_assemble.
+From P Require Import C01_gen C01_model C01_proofs_trig C01_proofs_poly.
 Open Scope R_scope.
 
 Theorem cheb_telescope : forall n p, 2 * sin p * rsum n (fun k => cos ((2 * INR k + 1) * p)) = sin (2 * INR n * p).
